@@ -132,10 +132,12 @@ func (fr *Frame) builtin(bi *ssa.Builtin, c *ssa.CallCommon, ins ssa.Instruction
 		case *types.Basic:
 			return Val{T: T, L: []string{fx.name("(blen "+v.L[0]+")", "Int", "len")}}
 		case *types.Map:
+			fr.guardMapOp(c.Args[0], false, st, cond, ins.Pos())
 			lk := "M|" + typeKey(c.Args[0].Type()) + "|#len"
 			fx.mapComps(c.Args[0].Type())
 			t := fx.name(sel(st.get(fx, lk), v.L[0]), "Int", "maplen")
 			fx.assert("(>= " + t + " 0)")
+			fx.assert("(=> (= " + v.L[0] + " 0) (= " + t + " 0))")
 			return Val{T: T, L: []string{t}}
 		}
 	case "cap":
@@ -151,13 +153,14 @@ func (fr *Frame) builtin(bi *ssa.Builtin, c *ssa.CallCommon, ins ssa.Instruction
 	case "delete":
 		m := fr.get(c.Args[0])
 		k := fr.get(c.Args[1])
+		fr.guardMapOp(c.Args[0], true, st, cond, ins.Pos())
 		has, _, _ := fx.mapComps(c.Args[0].Type())
 		hcur := st.get(fx, has)
-		had := sel(sel(hcur, m.L[0]), k.L[0])
+		had := sel(sel(hcur, m.L[0]), mapKey(k))
 		lk := "M|" + typeKey(c.Args[0].Type()) + "|#len"
 		lcur := st.get(fx, lk)
 		st.set(lk, fx.nameComp(lk, sto(lcur, m.L[0], ite(had, "(- "+sel(lcur, m.L[0])+" 1)", sel(lcur, m.L[0])))))
-		st.set(has, fx.nameComp(has, sto(hcur, m.L[0], sto(sel(hcur, m.L[0]), k.L[0], "false"))))
+		st.set(has, fx.nameComp(has, sto(hcur, m.L[0], sto(sel(hcur, m.L[0]), mapKey(k), "false"))))
 		return Val{}
 	}
 	unsupported("builtin %s", bi.Name())
@@ -559,11 +562,15 @@ func (fr *Frame) havocMod(m string, pt map[string]types.Type, vars map[string]Va
 	ct := cur.T
 	for i, p := range parts[1:] {
 		if ptr := derefType(ct); ptr != nil {
-			// cur is a pointer value: new root
-			root = ptr
-			ref = cur.L[0]
-			path = ""
-			ct = ptr
+			// cur is a pointer value: new root (an interior pointer continues its object's path)
+			if cur.Loc != nil && len(cur.L) == 0 {
+				root, ref, path, ct = cur.Loc.RootT, cur.Loc.Ref, cur.Loc.Path, ptr
+			} else {
+				root = ptr
+				ref = cur.L[0]
+				path = ""
+				ct = ptr
+			}
 		}
 		if p == "*" {
 			for _, k := range fr.typeComps("H|", root, path, ct) {
@@ -615,14 +622,19 @@ func intrinsicName(c *ssa.CallCommon) string {
 func intrinsicMods(fr *Frame, c *ssa.CallCommon) []string {
 	s := intrinsicName(c)
 	if strings.HasPrefix(s, "sync/atomic.") {
+		fr.fx.regComp("R|aops", "(Array Int Int)")
 		if strings.Contains(s, "Load") {
-			return nil
+			return []string{"R|aops"}
 		}
 		fam, root, path, ok := fr.addrComps(c.Args[0])
 		if ok {
-			return fr.typeComps(fam, root, path, derefType(c.Args[0].Type()))
+			return append(fr.typeComps(fam, root, path, derefType(c.Args[0].Type())), "R|aops")
 		}
-		return nil
+		return []string{"R|aops"}
+	}
+	if strings.HasSuffix(s, "Unlock") {
+		fr.fx.regComp("R|epoch", "(Array Int Int)")
+		return []string{"G|lock", "R|epoch"}
 	}
 	return []string{"G|lock"}
 }
@@ -649,6 +661,7 @@ func (fr *Frame) intrinsic(name string, c *ssa.CallCommon, args []Val, ins ssa.I
 		p := args[0]
 		t := derefType(c.Args[0].Type())
 		op := strings.TrimPrefix(name, "sync/atomic.")
+		fr.atomicOpCheck(p, st, cond, ins)
 		cur := fr.load(p, st)
 		bits, signed, _ := intInfo(t)
 		switch {
@@ -685,16 +698,63 @@ func (fr *Frame) intrinsic(name string, c *ssa.CallCommon, args []Val, ins ssa.I
 	case "Unlock":
 		fr.lockObl(cond, eq(held, "(- 1)"), ins, "Unlock() of a lock not write-held")
 		st.set(k, fx.nameComp(k, sto(cur, id, "0")))
+		fr.bumpEpoch(st, id)
 	case "RLock":
 		fr.lockObl(cond, eq(held, "0"), ins, "RLock() while the lock is already held by this execution")
 		st.set(k, fx.nameComp(k, sto(cur, id, "1")))
 	case "RUnlock":
 		fr.lockObl(cond, eq(held, "1"), ins, "RUnlock() of a lock not read-held")
 		st.set(k, fx.nameComp(k, sto(cur, id, "0")))
+		fr.bumpEpoch(st, id)
 	default:
 		unsupported("lock method %s", method)
 	}
 	return Val{}
+}
+
+// atomicOpCheck: an execution performs at most ONE sync/atomic operation on a field declared atomic (its
+// linearization point); a read-modify-write spelled as two operations can lose an update
+func (fr *Frame) atomicOpCheck(p Val, st *State, c string, ins ssa.Instruction) {
+	if p.Loc == nil {
+		return
+	}
+	fx := fr.fx
+	for _, g := range fx.E.S.Guards {
+		if g.Lock != "#atomic" || g.Root != p.Loc.Root || !strings.HasPrefix(p.Loc.Path, g.Field) {
+			continue
+		}
+		if fx.freshRefs[p.Loc.Ref] {
+			continue
+		}
+		fx.regComp("R|aops", "(Array Int Int)")
+		id := fx.name("(lockid "+p.Loc.Ref+" "+fmt.Sprint(hashStr(g.Root+g.Field))+")", "Int", "af")
+		cur := st.get(fx, "R|aops")
+		fx.obligeNamed(fr.key+"#atomic-op", "atomic", []string{"lock"}, c, eq(sel(cur, id), "0"), fr.pos(ins.Pos()), "one execution performs at most one atomic operation on "+g.Root+g.Field+" (single linearization point)")
+		st.set("R|aops", fx.nameComp("R|aops", sto(cur, id, "1")))
+	}
+}
+
+// bumpEpoch: every release of a lock starts a new critical-section epoch for it (ghost R|epoch)
+func (fr *Frame) bumpEpoch(st *State, id string) {
+	fx := fr.fx
+	fx.regComp("R|epoch", "(Array Int Int)")
+	cur := st.get(fx, "R|epoch")
+	st.set("R|epoch", fx.nameComp("R|epoch", sto(cur, id, "(+ "+sel(cur, id)+" 1)")))
+}
+
+// sectionCheck: all accesses of one execution to data guarded by the lock `id` lie in ONE critical section
+// (ghost R|sect: epoch of the first access, -1 before it). A function that reads under one section and
+// writes under another is not atomic (check-then-act), and an execution that reads its prices in two
+// sections may mix two schedules.
+func (fr *Frame) sectionCheck(id string, st *State, c string, pos token.Pos, what string) {
+	fx := fr.fx
+	fx.regComp("R|epoch", "(Array Int Int)")
+	fx.regComp("R|sect", "(Array Int Int)")
+	ep := sel(st.get(fx, "R|epoch"), id)
+	sc := st.get(fx, "R|sect")
+	cur := fx.name(sel(sc, id), "Int", "sect")
+	fx.obligeNamed(fr.key+"#atomic", "atomic", []string{"lock"}, c, or(eq(cur, "(- 1)"), eq(cur, ep)), fr.pos(pos), "all accesses to "+what+" in one execution must lie in a single critical section")
+	st.set("R|sect", fx.nameComp("R|sect", sto(sc, id, ite(eq(cur, "(- 1)"), ep, cur))))
 }
 
 func (fr *Frame) lockObl(cond, goal string, ins ssa.Instruction, text string) {
